@@ -615,7 +615,7 @@ func expandAlt(a RetAlt, at *ssa.BasicBlock, depth int, out *[]RetAlt) {
 		}
 	}
 	if !has || depth > 3 || len(at.Preds) == 0 {
-		*out = append(*out, a)
+		forkOnGuardPhi(a, depth, out)
 		return
 	}
 	for i, pred := range at.Preds {
@@ -640,4 +640,59 @@ func expandAlt(a RetAlt, at *ssa.BasicBlock, depth int, out *[]RetAlt) {
 		}
 		expandAlt(n, pred, depth+1, out)
 	}
+}
+
+// forkOnGuardPhi: an alternative that is guarded by a merged boolean ("ok" of an inlined decoder with several failing
+// arms) is split into one alternative per arm that can have produced the required value; each carries that arm's
+// guards. With a single possible arm the guard threading of BlockGuards has done this already.
+func forkOnGuardPhi(a RetAlt, depth int, out *[]RetAlt) {
+	if depth > 3 {
+		*out = append(*out, a)
+		return
+	}
+	for gi, g := range a.Guards {
+		phi, ok := g.Cond.(*ssa.Phi)
+		if !ok {
+			continue
+		}
+		if bt, ok := phi.Type().Underlying().(*types.Basic); !ok || bt.Kind() != types.Bool {
+			continue
+		}
+		var live []int
+		for i, e := range phi.Edges {
+			if cst, ok := e.(*ssa.Const); ok && cst.Value != nil && cst.Value.Kind() == constant.Bool && constant.BoolVal(cst.Value) != g.Truth {
+				continue
+			}
+			live = append(live, i)
+		}
+		if len(live) < 2 {
+			continue
+		}
+		for _, i := range live {
+			n := RetAlt{Ret: a.Ret, Results: a.Results, Block: phi.Block().Preds[i]}
+			n.Guards = append(n.Guards, a.Guards[:gi]...)
+			n.Guards = append(n.Guards, a.Guards[gi+1:]...)
+			pred := phi.Block().Preds[i]
+			n.Guards = append(n.Guards, BlockGuards(pred)...)
+			v, neg := StripNot(phi.Edges[i])
+			if _, isC := v.(*ssa.Const); !isC {
+				t := g.Truth
+				if neg {
+					t = !t
+				}
+				n.Guards = append(n.Guards, Guard{Cond: v, Truth: t, If: g.If})
+			}
+			if pi, ok := pred.Instrs[len(pred.Instrs)-1].(*ssa.If); ok && len(pred.Succs) == 2 && pred.Succs[0] != pred.Succs[1] {
+				pc, pneg := StripNot(pi.Cond)
+				t := pred.Succs[0] == phi.Block()
+				if pneg {
+					t = !t
+				}
+				n.Guards = append(n.Guards, Guard{Cond: pc, Truth: t, If: pi})
+			}
+			forkOnGuardPhi(n, depth+1, out)
+		}
+		return
+	}
+	*out = append(*out, a)
 }
